@@ -87,6 +87,12 @@ class const_fb(Feedback):
     constant_fields = {"hint": "fixed hint"}
     message_template = "v {value} / {hint}"
 
+class attr_fb(Feedback):
+    title = "ReachesIntoFields"
+    message_template = "attr {where.v} first {value[0]} file {who:filename}"
+    def condition(self, outcome, **kwargs):
+        return outcome
+
 class group_fb(FeedbackGroup):
     title = "Group"
     message = "a group"
@@ -118,7 +124,7 @@ class Field:
 '''
 
 CALLBACKS = {'condition', '_get_message', 'name', 'line', 'python_value', '__str__'}
-ZOO_CLASSES = ['cond_fb', 'child_fb', 'grandchild_fb', 'msg_fb', 'else_fb', 'resp_fb', 'notemplate_fb', 'const_fb', 'group_fb']
+ZOO_CLASSES = ['cond_fb', 'child_fb', 'grandchild_fb', 'msg_fb', 'else_fb', 'resp_fb', 'notemplate_fb', 'const_fb', 'attr_fb', 'group_fb']
 CORE_CLASSES = ['gently', 'explain', 'compliment', 'give_partial', 'guidance', 'set_correct', 'system_error', 'Feedback']
 ATTRS = ['constant_fields', 'fields', 'title', 'message', 'message_template', 'else_message', 'else_message_template', 'category', 'kind', 'priority',
          'justification', 'justification_template', 'muted', 'unscored', 'score', 'correct', 'valence', 'label']
@@ -150,13 +156,14 @@ def build(seed, tier):
             cls = r.choice(ZOO_CLASSES + ['gently', 'explain', 'compliment', 'give_partial', 'guidance', 'set_correct', 'system_error', 'Feedback'])
             op = {'op': 'make', 'cls': cls, 'kw': {}}
             kw = op['kw']
-            if cls in ('cond_fb', 'child_fb', 'grandchild_fb', 'msg_fb', 'else_fb'):
+            if cls in ('cond_fb', 'child_fb', 'grandchild_fb', 'msg_fb', 'else_fb', 'attr_fb'):
                 op['outcome'] = r.choice(OUTCOMES)
             if cls in ('gently', 'explain', 'compliment', 'guidance'):
                 if r.random() < 0.6:
                     op['pos'] = [repr('msg %d' % i)]
                 else:
-                    kw['message_template'] = repr(r.choice(['tpl {value}', 'tpl {value:name} at {where:line}', 'plain']))
+                    kw['message_template'] = repr(r.choice(['tpl {value}', 'tpl {value:name} at {where:line}', 'plain',
+                                                            'in {who:filename}', 'v {where.v}']))
             elif cls == 'give_partial':
                 op['pos'] = [r.choice(['0.5', '1', '0'])]
             else:
@@ -167,7 +174,8 @@ def build(seed, tier):
                     kw['message'] = repr('explicit %d' % i)
                 elif m < 0.45:
                     kw['message_template'] = repr(r.choice(['custom {value}', 'custom {who:name} {where:line} {value:python_value}',
-                                                            'no fields', '{value:>5}|', '']))
+                                                            'no fields', '{value:>5}|', '', 'file {who:filename} {who:>7:filename}',
+                                                            'reach {where.v} {value[0]}', '{value[0]:name}']))
             for f in ('value', 'who', 'where'):
                 if cls == 'give_partial' and f == 'value':
                     continue          # give_partial(value) takes its score positionally
@@ -230,27 +238,38 @@ class ModelWrap:
     """The documented dispatch: a format spec ending in the name of a formatter method sends the raw value through that
     method; the remainder of the spec is applied to the result; no spec = str(value)."""
 
-    def __init__(self, value, formatter, available):
-        self.value, self.formatter, self.available = value, formatter, available
+    def __init__(self, value, formatter, available=None):
+        self.value, self.formatter = value, formatter
 
     def __format__(self, spec):
         text = str(self.value)
-        for name in self.available:
-            if spec.endswith(name):
-                spec = spec[:-len(name)]
-                if spec.endswith(':'):
-                    spec = spec[:-1]
-                text = getattr(self.formatter, name)(self.value)
-                break
+        # the method whose name the spec ends with; 'filename' is not 'name' (the longest name wins)
+        hits = [n for n in MODEL_AVAILABLE if spec.endswith(n)]
+        if hits:
+            name = max(hits, key=len)
+            spec = spec[:-len(name)]
+            if spec.endswith(':'):
+                spec = spec[:-1]
+            text = getattr(self.formatter, name)(self.value)
         return format(text, spec)
+
+    # a template may reach into a field: {node.lineno}, {names[0]}
+    def __getattr__(self, key):
+        return ModelWrap(getattr(self.value, key), self.formatter)
+
+    def __getitem__(self, index):
+        return ModelWrap(self.value[index], self.formatter)
 
     def __str__(self):
         return str(self.value)
 
 
+MODEL_AVAILABLE = ['exception', 'filename', 'frame', 'traceback', 'inputs', 'line', 'name', 'output',
+                   'python_code', 'python_expression', 'python_value', 'table']
+
+
 def model_render(template, fields, formatter):
-    from pedal.core.formatting import Formatter
-    wrapped = {k: ModelWrap(v, formatter, Formatter.available) for k, v in fields.items()}
+    wrapped = {k: ModelWrap(v, formatter) for k, v in fields.items()}
     return template.format(**wrapped)
 
 
@@ -385,6 +404,26 @@ def execute(spec):
                         o['model_message'] = exp
                     except BaseException as e:   # rendering in the model failed (e.g. missing field): pedal must fail too
                         o['model_message_error'] = type(e).__name__
+                    # which of the texts pedal evaluates for this object fail in the model: the message (used when the
+                    # condition held), the else message and the justification (met / unmet variant)
+                    def _fails(tpl):
+                        if not isinstance(tpl, str):
+                            return None
+                        try:
+                            model_render(tpl, obj.fields, rep.format)
+                        except BaseException as e:
+                            return type(e).__name__
+                        return None
+                    errs = {'message': o.get('model_message_error'), 'else': None, 'just_met': None, 'just_unmet': None}
+                    if 'else_message' not in mkw and type(obj).else_message is None:
+                        errs['else'] = _fails(obj.else_message_template)
+                    if 'justification' not in mkw and type(obj).justification is None:
+                        jt0 = type(obj).justification_template
+                        if isinstance(jt0, str):
+                            errs['just_met'] = errs['just_unmet'] = _fails(jt0)
+                        elif isinstance(jt0, (tuple, list)) and len(jt0) == 2:
+                            errs['just_met'], errs['just_unmet'] = _fails(jt0[0]), _fails(jt0[1])
+                    o['model_errs'] = errs
                     # would ANY template of this object fail to render from these fields with this formatter?
                     tpls = [obj.message_template, obj.else_message_template]
                     jt = type(obj).justification_template
@@ -525,12 +564,25 @@ def judge(spec, res):
                 if vs:
                     return vs
                 continue
+            errs = o.get('model_errs') or {}
+            if want is True:
+                due = errs.get('just_met') or errs.get('message')
+            elif want is False:
+                # the message an untriggered feedback does NOT deliver is evaluated for reference only: its failure is
+                # nobody's error
+                due = errs.get('just_unmet') or errs.get('else')
+            else:
+                due = o.get('model_message_error') or o.get('model_template_error')
             if o.get('raised'):
-                if (o.get('model_message_error') or o.get('model_template_error')) and o['status'] == 'error' \
+                if due and o['status'] == 'error' \
                         and o['in_untriggered'] == 1 and not o['bool'] and o.get('same_exception'):
-                    continue      # the template cannot be rendered from the given fields: reported as an error, as stated
+                    continue      # the text cannot be rendered from the given fields: reported as an error, as stated
                 viol('creation-raised', 'no callback failed, yet %s(%s) reached the caller (recorded: triggered %d / untriggered %d, status %s)' % (
                     o['raised']['cls'], o['raised']['str'], o['in_triggered'], o['in_untriggered'], o['status']), ctx + '/as=%s' % o['raised']['cls'])
+                return vs
+            if want is not None and due and kind == 'make' and not delayed:
+                viol('rendering-error-swallowed', 'the %s cannot be rendered from the fields (%s in the model) but the call returned normally, status %s' % (
+                    'message/justification' if want else 'else message/justification', due, o['status']), ctx)
                 return vs
             if want is not None:
                 if bool(o['in_triggered']) != want or o['bool'] != want:
